@@ -158,7 +158,7 @@ func gen(t *rapid.T) Case {
 			if j == realAt {
 				r.Handlers = append(r.Handlers, "real")
 			} else {
-				r.Handlers = append(r.Handlers, rapid.SampledFrom([]string{"reject", "reject", "accept", "accept", "reject-disabled", "reject-disabled", "reject-invalid", "reject-unknown", "reject-untyped", "reject-panic-typed", "panic"}).Draw(t, fmt.Sprintf("%sH%d", l, j)))
+				r.Handlers = append(r.Handlers, rapid.SampledFrom([]string{"reject", "reject", "accept", "accept", "reject-disabled", "reject-disabled", "reject-invalid", "reject-unknown", "reject-untyped", "reject-panic-typed", "panic", "accept-genfail", "accept-genfail-conf", "accept-genfail-untyped"}).Draw(t, fmt.Sprintf("%sH%d", l, j)))
 			}
 		}
 		c.Runs = append(c.Runs, r)
@@ -348,7 +348,10 @@ func exec(c Case) (vh.Outcome, error) {
 				handlers = append(handlers, h)
 				fakes = append(fakes, nil)
 			} else {
-				fh := &vh.FakeHandler{ID: fmt.Sprintf("h%d", j), Accept: kind == "accept", Log: hlog, RejectKind: strings.TrimPrefix(strings.TrimPrefix(kind, "reject"), "-")}
+				fh := &vh.FakeHandler{ID: fmt.Sprintf("h%d", j), Accept: kind == "accept" || strings.HasPrefix(kind, "accept-genfail"), Log: hlog, RejectKind: strings.TrimPrefix(strings.TrimPrefix(kind, "reject"), "-")}
+				if strings.HasPrefix(kind, "accept-genfail") {
+					fh.RejectKind, fh.GenErr, fh.GenErrKind = "", true, strings.TrimPrefix(strings.TrimPrefix(kind, "accept-genfail"), "-")
+				}
 				if kind == "panic" {
 					fh.PanicIn = "authenticate"
 				}
@@ -402,7 +405,7 @@ func exec(c Case) (vh.Outcome, error) {
 				crashAt = j
 				break
 			}
-			if kind == "accept" || (kind == "real" && realAuth) {
+			if kind == "accept" || strings.HasPrefix(kind, "accept-genfail") || (kind == "real" && realAuth) {
 				sel = j
 				break
 			}
@@ -472,6 +475,28 @@ func exec(c Case) (vh.Outcome, error) {
 			for j, fh := range fakes {
 				if fh != nil && (count(fh.ID+".generate") != 0 || count(fh.ID+".authenticate") != 1) {
 					return out, vh.Errf("%s: handler %d: %d authenticate / %d generate calls (expected 1 / 0)", where, j, count(fh.ID+".authenticate"), count(fh.ID+".generate"))
+				}
+			}
+			continue
+		}
+		if strings.HasPrefix(r.Handlers[sel], "accept-genfail") {
+			// the first handler that authenticates cannot produce a request: nobody else may produce
+			// one in its place (no later handler was authenticated), so nothing is signed or added
+			out.Classes = append(out.Classes, "selected-handler-cannot-generate")
+			if runErr == nil {
+				return out, vh.Errf("%s: the selected handler %d failed to generate, yet Run reported success", where, sel)
+			}
+			if ca.NCalls() != 0 || adds != 0 {
+				return out, vh.Errf("%s: the selected handler %d (%s) produced no request, yet the CA received %d request(s) and the agent %d add(s)", where, sel, r.Handlers[sel], ca.NCalls(), adds)
+			}
+			for j, fh := range fakes {
+				if fh != nil && j > sel && len(hlogEvents(hlog, fh.ID)) != 0 {
+					return out, vh.Errf("%s: handler %d was used (%v) although handler %d, before it, had authenticated", where, j, hlogEvents(hlog, fh.ID), sel)
+				}
+			}
+			for j, kind := range r.Handlers {
+				if kind == "real" && j > sel && len(signs) > 0 {
+					return out, vh.Errf("%s: the real handler at position %d was asked after handler %d had authenticated", where, j, sel)
 				}
 			}
 			continue
@@ -547,7 +572,7 @@ func orDefault(name string) string {
 	return name
 }
 
-const rule = "histories of 1..4 runs of gensign.Run sharing one registered-key directory (a third of the later runs first replace, break or delete a '<name>.pub' / '<name>' file) and one scripted forwarded agent; in half of the histories every run uses the same regular.Handler object and forwarded connection, otherwise each run builds its own. Per run: login name (incl. names of other users and 'alice.pub'), namespace policy NONS / NSOK, hardware-key flag, client-declared user / host different from the login name, parameters built directly or through NewReqParam, agent behaviour {honest, lacks the key, signs with another key, signs other data, replays a signature captured earlier in the history, garbage, empty signature, failure, closes the connection}, handler list of 1..4 entries with at most one real regular handler among accepting harness handlers and harness handlers rejecting with every kind of error (authentication, disabled, invalid parameters, unknown, panic-typed, untyped) or panicking inside Authenticate; a tenth of the directly built parameter sets carry no client attributes at all. Directory: '<n>.pub' and bare '<n>' files holding any user's key (RSA, ECDSA, Ed25519, and the types nobody can answer for through the forwarded agent: security-key types (the honest agent does answer for the sk-ed25519 one, as a token would), a certificate line, DSA), both with different keys, unparsable, absent. Oracle: the harness sees every sign request and reply and decides itself (K.Verify over this run's challenge under the registered key) whether the real handler may authenticate; CA call or add-identity => the selected handler is the first in list order that authenticates, earlier ones asked once, later ones never; none => AllAuthFailed, no Generate, no CA call, no add; a handler that crashes while authenticating never counts as authenticated (error returned, no CA call, no add, no later handler used); a handler authenticates => the run succeeds with exactly one request from that handler; challenges are 64 bytes, only under the registered key, pairwise distinct over the history. Non-trivial: an adversarial agent while the key file exists, or a reject before an accept in a list of >= 2."
+const rule = "histories of 1..4 runs of gensign.Run sharing one registered-key directory (a third of the later runs first replace, break or delete a '<name>.pub' / '<name>' file) and one scripted forwarded agent; in half of the histories every run uses the same regular.Handler object and forwarded connection, otherwise each run builds its own. Per run: login name (incl. names of other users and 'alice.pub'), namespace policy NONS / NSOK, hardware-key flag, client-declared user / host different from the login name, parameters built directly or through NewReqParam, agent behaviour {honest, lacks the key, signs with another key, signs other data, replays a signature captured earlier in the history, garbage, empty signature, failure, closes the connection}, handler list of 1..4 entries with at most one real regular handler among accepting harness handlers and harness handlers rejecting with every kind of error (authentication, disabled, invalid parameters, unknown, panic-typed, untyped) or panicking inside Authenticate, and accepting harness handlers whose Generate then fails (generation, configuration or untyped error); a tenth of the directly built parameter sets carry no client attributes at all. Directory: '<n>.pub' and bare '<n>' files holding any user's key (RSA, ECDSA, Ed25519, and the types nobody can answer for through the forwarded agent: security-key types (the honest agent does answer for the sk-ed25519 one, as a token would), a certificate line, DSA), both with different keys, unparsable, absent. Oracle: the harness sees every sign request and reply and decides itself (K.Verify over this run's challenge under the registered key) whether the real handler may authenticate; CA call or add-identity => the selected handler is the first in list order that authenticates, earlier ones asked once, later ones never; none => AllAuthFailed, no Generate, no CA call, no add; a handler that crashes while authenticating never counts as authenticated (error returned, no CA call, no add, no later handler used); the first handler that authenticates cannot generate => error, no CA call, no add, no later handler used; a handler authenticates (and generates) => the run succeeds with exactly one request from that handler; challenges are 64 bytes, only under the registered key, pairwise distinct over the history. Non-trivial: an adversarial agent while the key file exists, or a reject before an accept in a list of >= 2."
 
 func TestC01Auth(t *testing.T) {
 	vh.Run(t, vh.Spec[Case]{Property: "C01", Name: "TestC01Auth", Rule: rule, Gen: gen, Exec: exec})
